@@ -2719,10 +2719,10 @@ Proof.
   induction fuel as [|f IH]; intros ls c d c' H; [reflexivity|].
   cbn [layers_of mro_ids] in *.
   assert (Hne : c <> c').
-  { intro E. apply H. subst c'. destruct (aget N.eqb p c) as [[a x o b]|]; left; reflexivity. }
+  { intro E. apply H. subst c'. destruct (aget N.eqb p c) as [[a x o pre b post]|]; left; reflexivity. }
   rewrite (aget_aset_other ls c d c' Hne).
   destruct (aget N.eqb ls c'); [reflexivity|].
-  destruct (aget N.eqb p c') as [[a x o [b|]]|]; try reflexivity.
+  destruct (aget N.eqb p c') as [[a x o pre [b|] post]|]; try reflexivity.
   apply IH. intro Hin. apply H. right. exact Hin.
 Qed.
 
@@ -2742,3 +2742,44 @@ Lemma setup_add_self p ls c sub :
   layers_of (S (length p)) p (setup_step p ls (SAdd c sub)) c
   = Some (aset N.eqb (match layers_of (S (length p)) p ls c with Some d => d | None => [] end) (alias_of p sub) sub).
 Proof. unfold setup_step. cbn [layers_of]. rewrite (aget_aset N.eqb N.eqb_eq), N.eqb_refl. reflexivity. Qed.
+
+(** ** the counter owner is shared along a hierarchy *)
+Lemma mro_ids_suffix fuel p : forall c1 c2, In c2 (mro_ids fuel p c1) ->
+  exists fuel' l1, mro_ids fuel p c1 = l1 ++ mro_ids fuel' p c2 /\ mro_ids fuel' p c2 <> [].
+Proof.
+  induction fuel as [|f IH]; intros c1 c2 H; [contradiction|].
+  cbn [mro_ids] in *. destruct (aget N.eqb p c1) as [[a x o pre b post]|] eqn:E.
+  - destruct H as [<-|H].
+    + exists (S f), []. cbn [mro_ids app]. rewrite E. split; [reflexivity|discriminate].
+    + destruct b as [j|]; [|contradiction]. destruct (IH j c2 H) as [f' [l1 [A B]]].
+      exists f', (c1 :: l1). rewrite A. split; [reflexivity|exact B].
+  - destruct H as [<-|[]]. exists (S f), []. cbn [mro_ids app]. rewrite E. split; [reflexivity|discriminate].
+Qed.
+
+Lemma mro_ids_head fuel p c : mro_ids fuel p c <> [] -> exists r, mro_ids fuel p c = c :: r.
+Proof.
+  destruct fuel; cbn [mro_ids]; [intro H; contradiction H; reflexivity|].
+  destruct (aget N.eqb p c) as [[a x o pre b post]|]; eauto.
+Qed.
+
+Lemma last_app_ne {A} (l1 l2 : list A) d d' : l2 <> [] -> last (l1 ++ l2) d = last l2 d'.
+Proof.
+  intro H. induction l1 as [|x r IH]; cbn [app].
+  - destruct l2 as [|y l2]; [contradiction H; reflexivity|]. clear H. revert y.
+    induction l2 as [|z l2 IH2]; intro y; [reflexivity|]. cbn [last] in *. apply IH2.
+  - cbn [last]. destruct (r ++ l2) eqn:E; [|exact IH].
+    apply app_eq_nil in E. destruct E as [_ E]. contradiction.
+Qed.
+
+(** a class of the MRO that carries the same alias has the same counter owner: base and derived
+    classes with one alias share one counter, whatever mixins or differently-aliased classes sit
+    between them *)
+Lemma owner_shared fuel p c1 c2 :
+  In c2 (mro_ids fuel p c1) -> alias_of p c2 = alias_of p c1 ->
+  exists fuel', owner_in p (alias_of p c1) (mro_ids fuel p c1) c1
+              = owner_in p (alias_of p c2) (mro_ids fuel' p c2) c2.
+Proof.
+  intros H Ha. destruct (mro_ids_suffix fuel p c1 c2 H) as [f' [l1 [A B]]].
+  exists f'. unfold owner_in. rewrite A, Ha, filter_app. apply last_app_ne.
+  destruct (mro_ids_head _ _ _ B) as [r Hr]. rewrite Hr. cbn [filter]. rewrite Ha, N.eqb_refl. discriminate.
+Qed.
